@@ -121,7 +121,18 @@ Liberal(h) == LET R == {i \in 1..Len(h) : h[i].s = "run"}
               IN {i \in 1..Len(h) : /\ h[i].pc \in {"ok", "okpath", "huge"}
                                     /\ \E c \in C : c < i /\ i < LibEnd(h, c)}
 
+(* Entry points.  o.entry = "function": the name derivation applied to the    *)
+(* text; "monitor": a monitor process that receives the text through its      *)
+(* standard input (the sidecar's Child), whose recorded counter is read back: *)
+(* crash/malformed is the error outcome, and "none" means it recorded nothing. *)
+(* A text with fewer than two newlines (at most two lines) is no crash report *)
+(* ("the only line is the sentinel"): the monitor may stay silent for it --   *)
+(* and for nothing else, however long the text and wherever its bytes lie.    *)
+Entries == {"function", "monitor"}
+MaySaySilent(h, o) == o.entry = "monitor" /\ Len(h) <= 2
+
 ShapeOK(o) == /\ o.kind \in {"err", "nogo", "name"}
+              /\ o.entry \in Entries
               /\ o.lenok
               /\ o.kind # "name" => (o.frames = <<>> /\ ~o.cut)
 
@@ -146,6 +157,8 @@ SameFrames(o, xfs, vid) ==
 AsText(h) == [i \in 1..Len(h) |-> IF i > 1 /\ h[i].s \in SentS THEN L("text", FALSE, FALSE, "none") ELSE h[i]]
 
 Allowed(h, vid, o) ==
+  IF o.kind = "none" THEN MaySaySilent(h, o) /\ o.frames = <<>>
+  ELSE
   /\ ShapeOK(o)
   /\ IF WellFormed(h)
      THEN LET x == Expected(h) IN o.kind = x.kind /\ SameFrames(o, x.frames, vid)
